@@ -1,6 +1,6 @@
 ID = "C13"
 PROP = {
-    "proof_modules": ["GrolProofs.Props.C13", "GrolProofs.MacroExpand"],
+    "proof_modules": ["GrolProofs.Props.C13", "GrolProofs.MacroExpand", "GrolProofs.Props.C13Global"],
     "theorems": ["Grol.Macro.C13.expand_is_subst", "Grol.Macro.C13.params_are_bound", "Grol.Macro.C13.subst_unquote",
                  "Grol.Macro.C13.expansion_is_pure", "Grol.Macro.C13.expansion_failure_leaves_state",
                  "Grol.Macro.C13.expand_inf", "Grol.Macro.C13.expand_pre", "Grol.Macro.C13.expand_idx", "Grol.Macro.C13.expand_for",
@@ -12,7 +12,16 @@ PROP = {
                  "Grol.Macro.C13.expand_noCalls",
                  "Grol.Macro.modify_unquote", "Grol.Macro.modifyList_unquote", "Grol.Macro.modify_noCalls",
                  "Grol.Macro.modifyList_length", "Grol.Macro.bound_extend", "Grol.Macro.lookupArg_setArg",
-                 "Grol.Macro.unquoteCb_builtin"],
+                 "Grol.Macro.unquoteCb_builtin",
+                 "Grol.Macro.C13.expand_is_hand_substitution", "Grol.Macro.C13.expandList_is_hand_substitution",
+                 "Grol.Macro.C13.expand_limits_irrelevant", "Grol.Macro.C13.call_sites_independent",
+                 "Grol.Macro.C13.site_ignores_siblings", "Grol.Macro.C13.expand_again", "Grol.Macro.C13.hand_noCalls",
+                 "Grol.Macro.C13.hand_noCallsList", "Grol.Macro.C13.modify_hand", "Grol.Macro.C13.modifyList_hand",
+                 "Grol.Macro.C13.expandCb_hand", "Grol.Macro.C13.expandCb_simple", "Grol.Macro.C13.hand_bridge",
+                 "Grol.Macro.C13.hand_bridgeList", "Grol.Macro.C13.envOK_extend", "Grol.Macro.C13.lookupArg_extend",
+                 "Grol.Macro.C13.lookup_zip_none", "Grol.Macro.C13.simpleTemplate_some", "Grol.Macro.C13.handExpandList_append",
+                 "Grol.Macro.C13.unquoteParam_some", "Grol.Macro.C13.identName_some",
+                 "Grol.Macro.C13.distinct_eq_eraseDups", "Grol.Macro.C13.simpleTemplate_eq_suite"],
     "suites": ["macro"],
     "rule": "macro suite: every case is a session of 1..5 inputs on one persistent eval.State; per input the harness runs the REAL parser, "
             "State.DefineMacros, State.ExpandMacros (only when the store is not empty, as repl.evalOne), the printer (normal + compact) with "
@@ -22,7 +31,9 @@ PROP = {
             "error/panic/globals of the evaluation; then the HAND-SUBSTITUTED session (template text with each unquote(p) replaced by "
             "the parenthesised argument text, built by the generator) evaluated in a fresh state. The Lean driver recomputes definition "
             "removal, store and expansion from the dump of the ORIGINAL tree with the model and compares (agree); the statement: expanded "
-            "tree = the suite's own substitution (specExpand/specSubst, plain recursions independent of the model) for programs whose "
+            "tree = the suite's own substitution (specExpand/specSubst = Grol.Macro.handExpand/handSubst of lean/Grol/Eval/MacroSpec.lean, total "
+            "structural recursions independent of the model's Modify-based expansion and the very functions of the theorem "
+            "C13.expand_is_hand_substitution) for programs whose "
             "called macros are one quote(T) with parameter-only unquotes and matching arity; expansion quiet; store = the definitions "
             "seen so far and unchanged by uses/evaluation; printed text re-parses to the same tree (modulo the C02 printer classes); "
             "evaluation (output, value, error, panic, non-function globals) equals the hand-substituted session's. Generators: 1..3 "
@@ -56,7 +67,14 @@ PROP = {
 LEVEL = {
     "text": "Lean theorems on the macro expansion model: a call of a one-quote macro with parameter-only unquotes expands to subst T "
             "(params -> expanded args) (expand_is_subst, by induction over Modify's traversal); expansion commutes with every other "
-            "constructor (one lemma each); programs without macro calls are unchanged; the store is only changed by definitions; "
+            "constructor (one lemma each); programs without macro calls are unchanged; WHOLE-PROGRAM theorem "
+            "expand_is_hand_substitution: for every store, every Limits and every program p on which the total hand-substitution "
+            "specification handExpand (MacroSpec.lean: every macro call at any depth replaced by its template with each unquote(p) replaced "
+            "by the expanded argument; defined when all called macros are one quote(T) with distinct parameters, parameter-only unquotes and "
+            "matching arity, and none is named info/self) is defined, the model's ExpandMacros returns exactly handExpand store p, by "
+            "structural induction over the whole tree with no side condition on fuel, depth or deadline. The macro suite's oracle "
+            "(specExpand) is literally this handExpand, so the function the real code is judged against is the function of the theorem; "
+            "corollaries: a site's expansion does not depend on its siblings, a second expansion of a call-free result is the identity; the store is only changed by definitions; "
             "model tied to the code by the macro correspondence suite, which also evaluates the property's statement (substitution, "
             "quiet expansion, store unchanged, print/re-parse, evaluation like the hand-substituted program) on the implementation",
     "design_ref": "DESIGN.md section 7, C13",
